@@ -86,11 +86,13 @@ int sc_enter(int call) {
   return n;
 }
 bool want_eintr(int call, int n) {
+  if (k->faults_off) return false;
   if (k->eintr_plan.count({call, n})) { k->eintr_fired++; fired(ST_EINTR); probe("eintr.planned"); return true; }
   if (cfg().p[ST_EINTR] > 0 && k->eintr_budget > 0 && flip(ST_EINTR, cfg().p[ST_EINTR])) { k->eintr_budget--; k->eintr_fired++; return true; }
   return false;
 }
 int want_fail(int call, int n) {
+  if (k->faults_off) return 0;
   auto it = k->fail_plan.find({call, n});
   if (it != k->fail_plan.end()) { fired(ST_SYSCALL); return it->second; }
   return 0;
@@ -130,6 +132,7 @@ static void ipc_exit() {
   if (P.killable && !k->killed_one && cfg().p[ST_KILL] > 0 && flip(ST_KILL, cfg().p[ST_KILL])) { k->killed_one = true; kill_process(t->proc); }
 }
 void set_killable(int proc, bool v) { proc_of(proc).killable = v; }
+void faults_off(bool off) { if (off) k->faults_off++; else if (k->faults_off > 0) k->faults_off--; }
 
 // ---------------------------------------------------------------- descriptors
 int fd_alloc(Proc &P, FdEnt e) {
